@@ -102,25 +102,7 @@ func (d *ioDriver) c03Actions(add func(string, func())) {
 	if t == nil || (!t.closed && !t.armed) {
 		for _, dur := range []time.Duration{time.Millisecond, 10 * time.Second} {
 			dur := dur
-			add(fmt.Sprintf("timer-once(%v)", dur), func() {
-				t := d.timer()
-				err := t.t.ScheduleOnce(dur, func() {
-					t.armed = false
-					t.fired++
-					d.handlers++
-					d.x.Note("  timer fired")
-				})
-				if err != nil {
-					d.fail("timer.ScheduleOnce/error", "ScheduleOnce(%v) on a ready timer: %v", dur, err)
-				}
-				t.armed, t.short = true, dur < time.Second
-				if t.short {
-					// own the timing: a short timer has always expired (the kernel says so) before the next action
-					if !kern.AwaitReadable(t.fd, settleGuard) {
-						d.x.Inconclusive("timerfd did not expire")
-					}
-				}
-			})
+			add(fmt.Sprintf("timer-once(%v)", dur), func() { d.armTimer(d.timer(), dur) })
 		}
 	}
 	if t != nil && !t.closed {
@@ -158,6 +140,26 @@ func (d *ioDriver) c03Actions(add func(string, func())) {
 	}
 	if d.runPendingSafe() {
 		add("RunPending", func() { d.runPending() })
+	}
+}
+
+// armTimer schedules t once (it must be ready) and records it in the ledger.
+func (d *ioDriver) armTimer(t *ioTimer, dur time.Duration) {
+	err := t.t.ScheduleOnce(dur, func() {
+		t.armed = false
+		t.fired++
+		d.handlers++
+		d.x.Note("  timer fired")
+	})
+	if err != nil {
+		d.fail("timer.ScheduleOnce/error", "ScheduleOnce(%v) on a ready timer: %v", dur, err)
+	}
+	t.armed, t.short = true, dur < time.Second
+	if t.short {
+		// own the timing: a short timer has always expired (the kernel says so) before the next action
+		if !kern.AwaitReadable(t.fd, settleGuard) {
+			d.x.Inconclusive("timerfd did not expire")
+		}
 	}
 }
 
